@@ -178,10 +178,10 @@ SPEC = G + ("specials", 1)      # IEEE corners: NaN, infinities, the two zeros
 SIZES = G + ("sizes", 1)        # composite values and nesting depths around the VM stack's initial capacity and growth
 # explore: seeded type-directed programs of depth <= 5 from the harness (gen_prog.go), judged by TLC like the others
 eval_prop("C01", [OBJS, LAZY, OPT, SIZES], [OBJS, LAZY, OPT, SIZES, U1F, U2], 1200, 40000, "deep")
-eval_prop("C02", [PARTIAL, LAZY, OPT, SPEC, SIZES], [PARTIAL2, LAZY, OPT, SPEC, SIZES, OBJS, U1F, U2], 1200, 40000, "deep")
+eval_prop("C02", [PARTIAL, LAZY, OPT, SPEC, SIZES], [PARTIAL2, LAZY, OPT, SPEC, SIZES, OBJS, U1F], 1200, 40000, "deep")
 eval_prop("C04", [BI1], [BI2, PARTIAL, U1F], 0, 20000, "deep")
 eval_prop("C05", [U1S, OVER, OBJS], [U1F, U2, OPT, OBJS, OVER], 1200, 40000, "deep")
-eval_prop("C06", [LAZY, PARTIAL], [LAZY, PARTIAL, U1F, U2], 1200, 40000, "deep")
+eval_prop("C06", [LAZY, PARTIAL], [LAZY, PARTIAL, U1F], 1200, 40000, "deep")
 eval_prop("C16", [OPT], [OPT, U1F])
 SAME = G + ("same", 1)
 eval_prop("C18", [SAME], [SAME, BI2, OBJS])
@@ -252,7 +252,8 @@ vm_prop("C11", [GV + ("bc", 1), GV + ("lazy", 1), GV + ("partial", 1), GV + ("bc
         [GV + ("bc", 1), GV + ("lazy", 1), GV + ("partial", 2), GV + ("objs", 1), GV + ("opt", 1), GV + ("builtins", 2), GV + ("u1", 2),
          GV + ("bcbig", 2)])
 vm_prop("C03", [GV + ("bc", 1), GV + ("lazy", 1), GV + ("partial", 1), GV + ("over", 1), GV + ("specials", 1), GV + ("sizes", 1)],
-        [GV + ("bc", 1), GV + ("lazy", 1), GV + ("partial", 2), GV + ("over", 1), GV + ("objs", 1), GV + ("builtins", 2), GV + ("u1", 2), GV + ("u2", 1)])
+        [GV + ("bc", 1), GV + ("lazy", 1), GV + ("partial", 2), GV + ("over", 1), GV + ("specials", 1), GV + ("sizes", 1), GV + ("objs", 1),
+         GV + ("builtins", 2), GV + ("u1", 1)])
 
 
 # ---------------------------------------------------------------------------- front end (C08, C09, C12-steps)
